@@ -7,7 +7,7 @@ Import ListNotations.
 Local Open Scope N_scope.
 
 Record wasm_rel (t : tabs) (s : spec) (w : wast) (B : N) : Prop := mkWaR {
-  wl_heap : heap_rel t (sp_heap s) (w_heap w) B;
+  wl_heap : heap_rel WE t (sp_heap s) (w_heap w) B;
   wl_arr : warr_rel t (sp_arrs s) (w_arrs w);
   wl_st : st_rel (sp_st s) (w_st w);
   wl_now : w_now w = sp_now s;
@@ -23,19 +23,19 @@ Qed.
 Lemma wasm_rel_st : forall t s w B ms mw, wasm_rel t s w B -> st_rel ms mw ->
   wasm_rel t (with_st s ms) (with_wst w mw) (B + 1).
 Proof.
-  intros t s w B ms mw [Hh Ha Hs Hn Hr] H. constructor; cbn; auto. apply (heap_rel_mono _ _ _ B); [lia|exact Hh].
+  intros t s w B ms mw [Hh Ha Hs Hn Hr] H. constructor; cbn; auto. apply (heap_rel_mono _ _ _ _ B); [lia|exact Hh].
 Qed.
 
 Lemma wasm_rel_same : forall t s w B, wasm_rel t s w B -> wasm_rel t s w (B + 1).
-Proof. intros t s w B [Hh Ha Hs Hn Hr]. constructor; auto. apply (heap_rel_mono _ _ _ B); [lia|exact Hh]. Qed.
+Proof. intros t s w B [Hh Ha Hs Hn Hr]. constructor; auto. apply (heap_rel_mono _ _ _ _ B); [lia|exact Hh]. Qed.
 
-Lemma wasm_rel_heap : forall t s w B sh' h', wasm_rel t s w B -> heap_rel t sh' h' (B + 1) ->
+Lemma wasm_rel_heap : forall t s w B sh' h', wasm_rel t s w B -> heap_rel WE t sh' h' (B + 1) ->
   wasm_rel t (with_heap s sh') (with_wheap w h') (B + 1).
 Proof. intros t s w B sh' h' [Hh Ha Hs Hn Hr] H. constructor; cbn; auto. Qed.
 
 Lemma wasm_rel_heap_alloc : forall t s v B w h' o',
   wasm_rel t s v B ->
-  heap_rel (mkTabs (t_heap t ++ [w]) (t_arr t)) (sp_heap s ++ [Some o']) h' (B + 1) ->
+  heap_rel WE (mkTabs (t_heap t ++ [w]) (t_arr t)) (sp_heap s ++ [Some o']) h' (B + 1) ->
   wasm_rel (mkTabs (t_heap t ++ [w]) (t_arr t)) (with_heap s (sp_heap s ++ [Some o'])) (with_wheap v h') (B + 1).
 Proof.
   intros t s v B w h' o' [Hh Ha Hs Hn Hr] Hnew. constructor; cbn; auto. apply warr_rel_ext_heap. exact Ha.
@@ -49,11 +49,11 @@ Lemma wasm_step_sim : forall t s w B o, wasm_rel t s w B -> wasm_pre s o = true 
 Proof.
   intros t s w B o HR Hpre HB. pose proof HR as [Hh Ha Hst Hnow Hsr].
   unfold wasm_pre in Hpre. apply andb_true_iff in Hpre. destruct Hpre as [Hwf Hx].
-  pose proof (hr_len _ _ _ _ Hh) as Hlh. pose proof (wr_len _ _ _ Ha) as Hla.
+  pose proof (hr_len _ _ _ _ _ Hh) as Hlh. pose proof (wr_len _ _ _ Ha) as Hla.
   destruct o as [size|src|h|h|h size|h src|k|k|size|src|input time max_len|input|esz data|a idx esz|a idx src esz|a| |];
     cbn [op_wf] in Hwf.
   - (* OHeapAlloc *)
-    destruct (hp_alloc_sim t (sp_heap s) (w_heap w) B (repeat (VNum 0) (N.to_nat size)) Hh) as (x & h' & E & Hnew);
+    destruct (hp_alloc_sim WE enc_ffi_rt t (sp_heap s) (w_heap w) B (repeat (VNum 0) (N.to_nat size)) Hh) as (x & h' & E & Hnew);
       [lia|apply vals_scoped_repeat0|].
     rewrite map_resolve_repeat0 in E.
     unfold step_sim_at; cbn zeta; cbn [spec_step wasm_step]. rewrite E. cbn [fst snd tabs_after is_heap_alloc].
@@ -61,38 +61,38 @@ Proof.
     + intros t'' He. cbn [res_rel]. rewrite <- Hlh. eapply ext_nth_heap; eauto.
     + intros _. apply wasm_rel_heap_alloc; auto.
   - (* OBoxAlloc *)
-    destruct (hp_alloc_sim t (sp_heap s) (w_heap w) B src Hh) as (x & h' & E & Hnew);
+    destruct (hp_alloc_sim WE enc_ffi_rt t (sp_heap s) (w_heap w) B src Hh) as (x & h' & E & Hnew);
       [lia|rewrite Hlh, Hla; exact Hwf|].
     unfold step_sim_at; cbn zeta; cbn [spec_step wasm_step]. rewrite E. cbn [fst snd tabs_after is_heap_alloc].
     split; [apply ext_heap_snoc|]. split; [|split; [reflexivity|]].
     + intros t'' He. cbn [res_rel]. rewrite <- Hlh. eapply ext_nth_heap; eauto.
     + intros _. apply wasm_rel_heap_alloc; auto.
   - (* OHeapRetain *)
-    destruct (hp_retain_sim t s (w_heap w) B h Hh Hwf) as (sh' & r & Es & Hr & Hf1 & Hf2 & Hnew).
+    destruct (hp_retain_sim WE t s (w_heap w) B h Hh Hwf) as (sh' & r & Es & Hr & Hf1 & Hf2 & Hnew).
     unfold step_sim_at; cbn zeta. cbn [wasm_step]. rewrite Es.
-    destruct (hp_retain (w_heap w) (resolve t h)) as [h' i] eqn:E. cbn [fst snd] in *.
+    destruct (hp_retain WE (w_heap w) (resolve t h)) as [h' i] eqn:E. cbn [fst snd] in *.
     rewrite tabs_after_nonalloc by reflexivity.
     split; [apply ext_refl|]. split; [intros; apply Hr|]. split; [congruence|].
     intros _. apply wasm_rel_heap; auto.
   - (* OHeapRelease *)
-    destruct (hp_release_sim t s (w_heap w) B h Hh Hwf) as (sh' & r & Es & Hr & Hf1 & Hf2 & Hnew).
+    destruct (hp_release_sim WE t s (w_heap w) B h Hh Hwf) as (sh' & r & Es & Hr & Hf1 & Hf2 & Hnew).
     unfold step_sim_at; cbn zeta. cbn [wasm_step]. rewrite Es.
-    destruct (hp_release (w_heap w) (resolve t h)) as [h' i] eqn:E. cbn [fst snd] in *.
+    destruct (hp_release WE (w_heap w) (resolve t h)) as [h' i] eqn:E. cbn [fst snd] in *.
     rewrite tabs_after_nonalloc by reflexivity.
     split; [apply ext_refl|]. split; [intros; apply Hr|]. split; [congruence|].
     intros _. apply wasm_rel_heap; auto.
   - (* OHeapLoad *)
-    destruct (hp_load_sim t s (w_heap w) B h size Hh Hwf) as (r & Es & Hr & Hf & Hext).
+    destruct (hp_load_sim WE t s (w_heap w) B h size Hh Hwf) as (r & Es & Hr & Hf & Hext).
     unfold step_sim_at; cbn zeta. cbn [wasm_step]. rewrite Es. cbn [fst snd].
     rewrite tabs_after_nonalloc by reflexivity.
     split; [apply ext_refl|]. split; [exact Hext|]. split; [exact Hf|].
     intros _. apply wasm_rel_same. exact HR.
   - (* OHeapStore *)
     apply andb_true_iff in Hwf. destruct Hwf as [Hwf Hsrc].
-    destruct (hp_store_sim t s (w_heap w) B h src Hh Hwf) as (sh' & r & Es & Hr & Hf & Hnew);
+    destruct (hp_store_sim WE t s (w_heap w) B h src Hh Hwf) as (sh' & r & Es & Hr & Hf & Hnew);
       [rewrite Hlh, Hla; exact Hsrc|].
     unfold step_sim_at; cbn zeta. cbn [wasm_step]. rewrite Es.
-    destruct (hp_store (w_heap w) (resolve t h) (map (resolve t) src)) as [h' i] eqn:E. cbn [fst snd] in *.
+    destruct (hp_store WE (w_heap w) (resolve t h) (map (resolve t) src)) as [h' i] eqn:E. cbn [fst snd] in *.
     rewrite tabs_after_nonalloc by reflexivity.
     split; [apply ext_refl|]. split; [intros; apply Hr|]. split; [exact Hf|].
     intros Hn. apply wasm_rel_heap; auto.
@@ -168,7 +168,7 @@ Proof.
       split; [apply ext_arr_snoc|]. split; [|split; [reflexivity|]].
       * intros t'' He. cbn [res_rel]. rewrite <- Hla. eapply ext_nth_arr; eauto.
       * intros _. constructor; cbn [sp_heap sp_arrs sp_st sp_now sp_sr with_arrs with_warrs w_heap w_arrs w_st w_now w_sr]; auto.
-        apply (heap_rel_mono _ _ _ B); [lia|]. apply heap_rel_ext_arr. exact Hh.
+        apply (heap_rel_mono _ _ _ _ B); [lia|]. apply heap_rel_ext_arr. exact Hh.
   - (* OArrayGet *)
     destruct (wasm_array_get_sim t s (w_arrs w) a idx esz Ha Hwf Hx) as (r & Es & Hf & Hext).
     unfold step_sim_at; cbn zeta. cbn [wasm_step]. rewrite Es. cbn [fst snd].
@@ -186,7 +186,7 @@ Proof.
       cbn [fst snd] in *. rewrite tabs_after_nonalloc by reflexivity.
       split; [apply ext_refl|]. split; [intros; apply Hr|]. split; [exact Hf|].
       intros Hn. constructor; cbn [sp_heap sp_arrs sp_st sp_now sp_sr with_arrs with_warrs w_heap w_arrs w_st w_now w_sr]; auto.
-      apply (heap_rel_mono _ _ _ B); [lia|exact Hh].
+      apply (heap_rel_mono _ _ _ _ B); [lia|exact Hh].
     + cbn [spec_step]. destruct (resolve_arr_arg t _ _ Hwf) as (j & -> & Hj & _).
       unfold arr_esz_ok in Hx. rewrite arr_get_spec in * by exact Hj. rewrite Hx.
       destruct (N.eqb_spec (N.of_nat (length src)) esz); [contradiction|]. cbn [negb]. rewrite !orb_true_r.
